@@ -58,7 +58,9 @@ def build():
     U.outside('''
 pub type KrillResult<T> = Result<T, Error>;
 impl Error { pub fn publishing(_s: &str) -> Error { unimplemented!() } }
+impl IssuanceTimingConfig { pub fn publish_hours_before_next(&self) -> i64 { unimplemented!() } }
 ''')
+    U.add('pub assume_specification [IssuanceTimingConfig::publish_hours_before_next] (t: &IssuanceTimingConfig) -> (r: i64);')
     # KeyObjectSet: the real struct except that the HashMap field type is abstracted (not needed here)
     U.struct(PUB, 'KeyObjectSet', derive=['Clone'])
     U.outside('pub type HashMap<K, V> = PublishedObjectsMapOf<K, V>;\n#[derive(Clone)] pub struct PublishedObjectsMapOf<K, V>(pub Vec<(K, V)>);\n#[derive(Clone)] pub struct ObjectName(pub u8);\n#[derive(Clone)] pub struct PublishedObject(pub u8);')
